@@ -136,6 +136,9 @@ def const_val(o):
         return v["v"]
     if k == "bytes":
         return bytes.fromhex(v["hex"])
+    if k == "optref":
+        # a promoted Option<&int>: Some(&v) / None
+        return ("Some&", int(v["v"])) if "v" in v else ("None&",)
     return None
 
 
